@@ -22,6 +22,13 @@ func snapMonitors() []monitor.Monitor {
 	return []monitor.Monitor{a, cm, &monitor.Snapshots{A: a, C: cm}, &monitor.Leader{}, &monitor.LogMatch{}, &monitor.Linear{A: a}}
 }
 
+// snapshot monitors plus the durability monitor of C04
+func snapDurMonitors() []monitor.Monitor {
+	a := &monitor.Apply{}
+	cm := &monitor.Commit{}
+	return []monitor.Monitor{a, cm, &monitor.Snapshots{A: a, C: cm}, &monitor.Leader{}, &monitor.LogMatch{}, &monitor.Linear{A: a}, &monitor.Durable{A: a}}
+}
+
 var scenarios = map[string]*sched.Scenario{}
 
 func regScenario(s *sched.Scenario) {
@@ -89,9 +96,9 @@ func init() {
 		if tier == "thorough" {
 			pl = []schedPlan{{"snap1-seq", 4, 600}, {"snap1-par", 3, 500}, {"snap1-big", 3, 400}, {"inst3-restore", 4, 600}, {"inst3-compact", 4, 600}}
 		}
-		cl := []plan{{"snap3-d2", 80}, {"memsnap3-d2", 70}, {"stalesuffix3-d2", 65}}
+		cl := []plan{{"snap3-d2", 80}, {"memsnap3-d2", 70}, {"stalesuffix3-d2", 65}, {"slowsnap3-d2", 40}, {"slowapplysnap3-d2", 40}, {"filesnap3-d2", 60}}
 		if tier == "thorough" {
-			cl = []plan{{"snap3-d3", 500}, {"memsnap3-d3", 400}, {"bigsnap3-d2", 200}, {"stalesuffix3-d3", 300}}
+			cl = []plan{{"snap3-d3", 500}, {"memsnap3-d3", 400}, {"bigsnap3-d2", 200}, {"stalesuffix3-d3", 300}, {"slowsnap3-d3", 500}, {"slowapplysnap3-d3", 500}}
 		}
 		return schedCheckWith(prop, tier, pl, nil, cl)
 	}
@@ -181,11 +188,15 @@ func runSchedPlans(prop string, plans []schedPlan, rep *common.Report, reported 
 		deadline := time.Now().Add(time.Duration(pl.secs) * time.Second)
 		completed := -1
 		for bound := 0; bound <= pl.bound; bound++ {
+			// many small shards, 16 at a time: a worker's memory is bounded by the
+			// size of its shard (the race detector keeps what executions allocated)
 			n := 16
 			if bound == 0 {
 				n = 1
+			} else if bound >= 2 {
+				n = 256
 			}
-			outs, err := explore.RunShards([]string{"schedworker", pl.scenario, fmt.Sprint(bound), fmt.Sprint(deadline.UnixNano())}, n)
+			outs, err := explore.RunShardsPool([]string{"schedworker", pl.scenario, fmt.Sprint(bound), fmt.Sprint(deadline.UnixNano())}, n, 16)
 			if err != nil {
 				fmt.Println("INFRA:", err)
 				return nil, 2
@@ -301,6 +312,9 @@ func schedWorker() {
 	if sc == nil {
 		fmt.Fprintln(os.Stderr, "INFRA: unknown scenario", os.Args[2])
 		os.Exit(2)
+	}
+	if raceEnabled {
+		sched.MaxExecutions = 6000
 	}
 	r := sched.Explore(sc, bound, time.Unix(0, dl), shard, n)
 	b, _ := json.Marshal(struct {
